@@ -74,6 +74,30 @@ func runRelay(r *core.Run) {
 		}
 		m := spec.Gen(c, pd, opt)
 		it := item{pd: pd}
+		if sib := map[string]string{"cmpp20": "cmpp30", "cmpp30": "cmpp20"}[proto.Name]; sib != "" && r.Cfg.Index%7 == 2 && len(items) == 0 && len(pd.IDs) > 0 {
+			// a peer that speaks the other version of the protocol on this link: same command ids, another body layout.
+			// Most such frames are refused; what IS accepted must be relayable like anything else
+			for _, p2 := range sp.Protos {
+				if p2.Name != sib {
+					continue
+				}
+				for _, pd2 := range p2.PDUs {
+					if len(pd2.IDs) > 0 && pd2.IDs[0] == pd.IDs[0] {
+						m2 := spec.Gen(c, pd2, spec.GenOpt{MaxDests: 2, MaxBody32: 100, BinNoNul: true, Shape: int(r.Cfg.Index/7) % 3})
+						it.img, _ = spec.Build(m2)
+						it.kind = "other-version"
+					}
+				}
+			}
+			if it.kind != "" {
+				r.Probe("frame_of_the_other_protocol_version")
+				items = append(items, it)
+				stream = append(stream, it.img...)
+				ends = append(ends, len(stream))
+				r.Event("peer sends %s %s %d octets", pd.Site(), it.kind, len(it.img))
+				continue
+			}
+		}
 		switch c.Pick(4, 3, 5) {
 		case 0: // canonical: the library's own encoding
 			pdu := ToGo(m)
